@@ -47,6 +47,11 @@ fn one(t: &[&str]) -> String {
                 _ => "bad-be".to_string(),
             }
         }
+        "q120" => match r.get("be").unwrap_or("") {
+            "nref" => crate::avx_kern::q120::<NTT120Ref>(&r),
+            "navx" => crate::avx_kern::q120::<NTT120Avx>(&r),
+            _ => "bad-be".to_string(),
+        },
         "hal" => crate::avx_hal::hal(&r),
         "sample" => crate::avx_hal::sample(&r),
         "scheme" => crate::avx_scheme::scheme(&r),
